@@ -647,8 +647,32 @@ def _strings(x, out):
             _strings(v, out)
 
 
+def replay_encode(doc):
+    """Counterexamples of the encode-side contracts: rebuild the object of the counter-model and re-check the clause natively."""
+    from liquer.parser import ActionRequest, StringActionParameter
+    ob = doc.get("obligation", "")
+    me = (doc.get("inputs") or {}).get("self") or {}
+    if "ActionRequest.encode" in ob:
+        name = me.get("name") if isinstance(me.get("name"), str) else "q"
+        n = len(me.get("parameters") or [])
+        bad = []
+        for k in sorted({n, 0, 1, 2}):
+            for text in ("", "x"):
+                a = ActionRequest(name, [StringActionParameter(text) for _ in range(k)])
+                enc = a.encode()
+                if k == 0 and enc != name:
+                    bad.append(dict(name=name, arguments=[], encoded=enc, expected=name))
+                if k > 0 and not enc.startswith(name + "-"):
+                    bad.append(dict(name=name, arguments=[text] * k, encoded=enc, expected_prefix=name + "-"))
+        return dict(confirmed=bool(bad), inputs=dict(name=name, parameters=n), violations=bad[:4])
+    return None
+
+
 def replay(doc):
     """Every string of the counter-model is tried as a query text (and as an argument of a one-action query)."""
+    r = replay_encode(doc)
+    if r is not None:
+        return r
     strings = []
     _strings(doc.get("inputs") or {}, strings)
     strings = list(dict.fromkeys(strings))
